@@ -31,7 +31,9 @@ type dcGen struct {
 var dcScalars = []string{"int", "string", "bool", "int64", "float64", "byte", "uint32", "int8", "rune"}
 
 // field type expression in package index p; depth-limited
-func (d *dcGen) fieldType(p int, depth int, self string) string { return d.fieldTypeI(p, depth, self, true) }
+func (d *dcGen) fieldType(p int, depth int, self string) string {
+	return d.fieldTypeI(p, depth, self, true)
+}
 
 func (d *dcGen) fieldTypeI(p int, depth int, self string, allowIface bool) string {
 	g := d.g
@@ -165,6 +167,11 @@ var dcForce = ""
 // dcCrossed: package paths and package names sort in opposite orders
 var dcCrossed = false
 
+// dcSuffix: the import path of the first package ends with the whole import path of the second one
+// (sigs.ex.test/x/d1 and ex.test/x/d1), and the second names a struct of the first behind a pointer, in a slice
+// and as a map value -- so its generated file must import the first
+var dcSuffix = false
+
 func (g *Gen) genDeepcopyProgram(prefix string, npk int, arrayRefs bool) ([]dcPkg, []string) {
 	d := &dcGen{g: g, classes: map[string]bool{}, arrayRefs: arrayRefs}
 	for p := 0; p < npk; p++ {
@@ -179,6 +186,9 @@ func (g *Gen) genDeepcopyProgram(prefix string, npk int, arrayRefs bool) ([]dcPk
 			// ... and the package clause does not say the directory's name (an import line that is missing
 			// cannot be guessed back from the identifier used in the code)
 			pk.Name = "pk" + strings.ToLower(leaf)
+		}
+		if dcSuffix && p == 0 {
+			pk.Path = fmt.Sprintf("sigs.ex.test/%sd1", prefix)
 		}
 		d.pkgs = append(d.pkgs, pk)
 		cur := &d.pkgs[p]
@@ -271,6 +281,15 @@ func (g *Gen) genDeepcopyProgram(prefix string, npk int, arrayRefs bool) ([]dcPk
 			}
 			b.WriteString("}\n\n")
 			cur.Types = append(cur.Types, dcType{Name: name, Kind: "struct", Generated: gen})
+		}
+		if dcSuffix && p == 0 {
+			b.WriteString("// +k8s:deepcopy-gen=true\ntype SufLeaf struct {\n\tN int\n\tP *int\n}\n\n")
+			cur.Types = append(cur.Types, dcType{Name: "SufLeaf", Kind: "struct", Generated: true})
+		}
+		if dcSuffix && p == 1 {
+			fmt.Fprintf(&b, "// +k8s:deepcopy-gen=true\ntype SufUser struct {\n\tP *%s.SufLeaf\n\tS []%s.SufLeaf\n\tM map[string]%s.SufLeaf\n}\n\n", d.pkgs[0].Name, d.pkgs[0].Name, d.pkgs[0].Name)
+			cur.Types = append(cur.Types, dcType{Name: "SufUser", Kind: "struct", Generated: true})
+			d.classes["dependency-path-ends-with-the-package-path"] = true
 		}
 		var imports []string
 		body := b.String()
